@@ -8,12 +8,12 @@
 #include <sys/wait.h>
 #include "proto.h"
 
-static char names[64][8];
+static char names[2048][8];
 
 static void do_op(const char* op)
 {
-    if (op[0] == 'S') gp_suite(op[1] == '-' ? NULL : names[atoi(op + 1) & 63]);
-    else if (op[0] == 'T') gp_test(op[1] == '-' ? NULL : names[atoi(op + 1) & 63]);
+    if (op[0] == 'S') gp_suite(op[1] == '-' ? NULL : names[atoi(op + 1) & 2047]);
+    else if (op[0] == 'T') gp_test(op[1] == '-' ? NULL : names[atoi(op + 1) & 2047]);
     else if (op[0] == 'E' && op[1] == '1') gp_expect(1 + 1 == 2);
     else if (op[0] == 'E' && op[2] == 'f') { int my_var = -39; gp_expect(1 + 1 == 3, "a note", "%x", 127, my_var, "[%i, %i]", 1, 2); }
     else if (op[0] == 'E' && op[2] == 'g') { gp_expect(1 + 1 == 3, "%%%i %i", 1, 2, "100%% of %s", "x"); }   /* literal percent signs in format strings */
@@ -30,11 +30,11 @@ static void child(char* script)
 {
     setvbuf(stdout, NULL, _IONBF, 0); setvbuf(stderr, NULL, _IONBF, 0);
     alarm(2);                         /* a test program that does not terminate is killed: status 128+SIGALRM */
-    char* ops[256]; int n = 0;
-    if (strcmp(script, "-")) for (char* t = strtok(script, ","); t && n < 256; t = strtok(NULL, ",")) ops[n++] = t;
+    static char* ops[8192]; int n = 0;
+    if (strcmp(script, "-")) for (char* t = strtok(script, ","); t && n < 8192; t = strtok(NULL, ",")) ops[n++] = t;
     for (int i = 0; i < n;) {
         if (ops[i][0] == '@') {      /* maximal run of second-thread ops: one thread, joined */
-            char* run[256]; int k = 0;
+            static char* run[8192]; int k = 0;
             while (i < n && ops[i][0] == '@') run[k++] = ops[i++] + 1;
             struct chunk c = { run, k }; pthread_t th; pthread_create(&th, NULL, thread_main, &c); pthread_join(th, NULL);
         } else do_op(ops[i++]);
@@ -47,7 +47,7 @@ static void strip_ansi(char* s) { char* w = s; for (char* r = s; *r;) { if (*r =
 int main(void)
 {
     setvbuf(stdout, NULL, _IOFBF, 1 << 16);
-    for (int i = 0; i < 64; i++) snprintf(names[i], sizeof names[i], "n%d", i);
+    for (int i = 0; i < 2048; i++) snprintf(names[i], sizeof names[i], "n%d", i);
     while (vp_next()) {
         if (vp_ntok != 2 || strcmp(vp_tok[0], "tf")) { puts("bad-op"); fflush(stdout); continue; }
         int fd[2]; if (pipe(fd)) { puts("pipe-failed"); continue; }
